@@ -85,6 +85,28 @@ def run(ctx):
                     exprs.append('match resume (dec_item %s %s (Some %s)) (mkStream %s 0 false 0) with inl _ => 0 | inr (Err EUnmodelled, _) => 2 | inr _ => 1 end' % (
                         cdc, cnat(fuel), c.cty, cbytes(data[:k])))
                     meta.append(dict(m, presentation='open'))
+    # one primitive payload of more than a megabyte (and of more than three), cut around every whole megabyte of the
+    # payload and right before its end: the same three answers; a reader that fetches a big payload in slices must tell
+    # "nothing yet" from "ended" in every slice, not only in the first
+    from pyasn1.type import univ as _univ
+    MiB = 1 << 20
+    for nbytes in (MiB + 5, 3 * MiB + 5):
+        for cdc in ('BER', 'DER'):
+            spec = _univ.OctetString()
+            data = I.run_encode(cdc, _univ.OctetString(bytes(range(256)) * (nbytes // 256) + b'\x07' * (nbytes % 256)))[1]
+            hdr = len(data) - nbytes
+            cuts = sorted({hdr + j * MiB + d for j in range(1, nbytes // MiB + 1) for d in (-1, 0, 1)} | {len(data) - 1, hdr + 17})
+            for k in cuts:
+                if not (0 < k < len(data)): continue
+                r = classify_prefix(cdc, data, k, spec)
+                ctx.case((cdc, 'big-octets', nbytes, k), True)
+                ctx.stats['cuts inside a payload of more than a megabyte'] += 1
+                m = {'codec': cdc, 'T': ('octs',), 'data': 'OCTET STRING of %d octets (%s), encoding of %d octets' % (nbytes, cdc, len(data)), 'k': k, 'observed': r}
+                bad = [key for key, want in [('bytes', ('EUnderrun', 'EEndOfStream')), ('open', ('under',)), ('closed', ('EEndOfStream',)),
+                                             ('open-bytesio', ('under',)), ('closed-bytesio', ('EEndOfStream',))] if r[key] not in want]
+                bad += [key for key in r if key.startswith('polled-then-closed') and r[key] != 'EEndOfStream']
+                if bad:
+                    ctx.prop_fail('a payload of more than a megabyte cut at octet %d: %s' % (k, ', '.join('%s gives %s' % (b, r[b]) for b in bad)), m)
     if meta: ctx.sample(meta[0]); ctx.sample(meta[-1])
     if not search_only:
         codes = core.coq_codes('c06', 'Model.Dec Model.Obs', exprs)
